@@ -1,6 +1,7 @@
 //! C18 / C19: the TZif reader through hook H2 (`verif_hooks::tzif_offsets`).
 use crate::civil::*;
 use crate::common::*;
+use astrolabe::DateUtilities;
 
 pub fn bytes_to_str(b: &[u8]) -> String { b.iter().map(|x| *x as char).collect() }
 pub fn str_to_bytes(s: &str) -> Vec<u8> { s.chars().map(|c| c as u32 as u8).collect() }
@@ -18,6 +19,18 @@ pub fn run(inp: &Input) -> Option<Obs> {
             Some(guarded(move || match astrolabe::verif_hooks::tzif_offsets(&bytes, &ts) {
                 Ok(offs) => Obs::Ok(offs.iter().map(|x| *x as i128).collect(), vec![]),
                 Err(_) => Obs::Err(3, vec![]),
+            }))
+        }
+        // Offset::Local.resolve() as it is: reads /etc/localtime and the wall clock.  The caller has bind-mounted the file
+        // strs[0] over /etc/localtime (private mount namespace); the clock reading is returned with the offset.
+        "tz_local" => {
+            Some(guarded(move || {
+                loop {
+                    let before = astrolabe::DateTime::now().timestamp();
+                    let off = astrolabe::Offset::Local.resolve();
+                    let after = astrolabe::DateTime::now().timestamp();
+                    if before == after { return Obs::Ok(vec![before as i128, off as i128], vec![]); }
+                }
             }))
         }
         _ => None,
